@@ -155,6 +155,7 @@ def r4(p, rep):
     n = 0
     # helpers of _parse_op and everything else in its module (rule objects in a table are called through the table)
     scope = common.with_helpers(p, f0, depth=4)
+    closure = list(scope)
     scope += [g for g in p.funcs.values() if g.module is f0.module and g not in scope and isinstance(g.node, ast.FunctionDef)]
     for f in scope:
         sites = common.take_one_sites(f.node)
@@ -176,13 +177,7 @@ def r4(p, rep):
                         keyed = ds[0]
                 if (not is_set and keyed is None) or not isinstance(st, (ast.Assign, ast.Return)):
                     continue
-                n += 1
                 coll = norm(recv)
-                if keyed is not None and norm(keyed.key) != norm(keyed.value):
-                    rep.violation("C07.R4", f"{f0.qualname}:implicit-output:candidates-keyed", f"{f.module.rel}:{keyed.lineno}", f"the candidate outputs are kept in a dict keyed by `{norm(keyed.key)}`, not by the candidate itself: inputs with equal keys (the same axis names in a different order, 'a b, b a') share one entry, so len({coll}) == 1 although the choice is not unique - the last one silently wins instead of SemanticError")
-                facts = cfg.guards_of_ast(node)
-                ok = c16.singleton_guard(facts, coll) and common.len_bounds(facts, coll)[0] >= 1
-                rep.add("C07.R4", f"{f0.qualname}:implicit-output:pop()", f"{f.module.rel}:{node.lineno}", ok, f"one element of `{coll}` ({form}) only when len({coll}) == 1 (otherwise SemanticError)" if ok else f"the implicit output is taken from `{coll}` ({form}) without a test that this very set has exactly one element: an ambiguous call (e.g. 'a b, b a') silently picks one input - which one depends on set order")
                 adds = [a for a in walk_no_nested(f.node) if isinstance(a, ast.Call) and norm(a.func) == f"{coll}.add"]
                 txt = " ".join(norm(x) for a in adds for x in [enclosing(a, ast.For)] if x is not None)
                 # the candidate set may also be built by a comprehension or by a helper function
@@ -194,6 +189,14 @@ def r4(p, rep):
                             if r and r[0] == "func":
                                 txt += " " + " ".join(norm(st) for st in r[1].node.body)
                 sub = any(w in txt for w in ("issubset", "issuperset", "<=", ">="))
+                if f not in closure and not sub:
+                    continue  # elsewhere in the module: a set that is not a set of candidate outputs (e.g. the marked axes of one expression)
+                n += 1
+                if keyed is not None and norm(keyed.key) != norm(keyed.value):
+                    rep.violation("C07.R4", f"{f0.qualname}:implicit-output:candidates-keyed", f"{f.module.rel}:{keyed.lineno}", f"the candidate outputs are kept in a dict keyed by `{norm(keyed.key)}`, not by the candidate itself: inputs with equal keys (the same axis names in a different order, 'a b, b a') share one entry, so len({coll}) == 1 although the choice is not unique - the last one silently wins instead of SemanticError")
+                facts = cfg.guards_of_ast(node)
+                ok = c16.singleton_guard(facts, coll) and common.len_bounds(facts, coll)[0] >= 1
+                rep.add("C07.R4", f"{f0.qualname}:implicit-output:pop()", f"{f.module.rel}:{node.lineno}", ok, f"one element of `{coll}` ({form}) only when len({coll}) == 1 (otherwise SemanticError)" if ok else f"the implicit output is taken from `{coll}` ({form}) without a test that this very set has exactly one element: an ambiguous call (e.g. 'a b, b a') silently picks one input - which one depends on set order")
                 rep.add("C07.R4", f"{f0.qualname}:implicit-output:superset-rule", f"{f.module.rel}:{node.lineno}", sub, "candidates are the inputs whose axis names contain those of all other inputs" if sub else f"the candidates in `{coll}` are not selected by a subset test over the axis names of the other inputs")
     if n == 0:
         raise AnalysisError("unrecognised idiom: no element taken from a set of candidate outputs (pop() / next(iter()) / one-element unpacking) reachable from _parse_op")
